@@ -120,9 +120,26 @@ def lexLe : List Nat → List Nat → Bool
   | _ :: _, [] => false
   | a :: as, b :: bs => a < b || (a == b && lexLe as bs)
 
+/-- C13 for the unification loop: the number of watchdog polls when the loop polls at every
+iteration whose count of *evidence-holding classes processed so far* is a multiple of `every`
+(the forest's classes are visited in index order; empty classes do not advance the count). -/
+def pollsFor (o : Orders) (every : Nat) : Nat → Forest → Nat → Nat → Nat → Option Nat
+  | 0, _, _, _, _ => none
+  | fuel + 1, f, next, counter, polls =>
+    let (_, sets) := f.sets setM
+    let (counter', polls') := sets.foldl (fun (cp : Nat × Nat) (p : Nat × List TE) =>
+      let polls := if cp.1 % every == 0 then cp.2 + 1 else cp.2
+      (if p.2.isEmpty then cp.1 else cp.1 + 1, polls)) (counter, polls)
+    match round o f next counter with
+    | .error _ => none
+    | .ok acc => if acc.progress then pollsFor o every fuel acc.forest acc.next counter' polls' else some polls'
+
 def handle (payload impl : String) : String × String :=
   match words payload with
-  | ord :: nv :: budget :: js =>
+  | ord0 :: nv :: budget :: js =>
+    let (ord, every) := match ord0.splitOn "@" with
+      | [o, e] => (o, (e.toNat?).getD 1)
+      | _ => (ord0, 1)
     match nv.toNat?, budget.toNat? with
     | some nvars, some budget =>
       let parsed := js.filterMap (fun j => match j.splitOn ">" with
@@ -148,7 +165,15 @@ def handle (payload impl : String) : String × String :=
               | [] => [c]
               | y :: r => if lexLe c y then c :: y :: r else y :: ins r
             ins acc) []
-          "res=ok classes=[" ++ "|".intercalate (cl.map (fun c => ",".intercalate (c.map toString))) ++ "] types=[" ++
+          -- (the model keeps one `conflict` where the code keeps one per distinct reason, so with
+          -- conflicting evidence the code may run one more round: the poll count is then taken
+          -- over from the implementation and not judged)
+          let implPolls := (((impl.splitOn "polls=").getD 1 "").splitOn " ").headD ""
+          let polls := if (impl.splitOn "conflict").length > 1 then implPolls else
+            match initForest sortedOrders (List.range nvars) infOf with
+            | .ok f0 => toString ((pollsFor sortedOrders (max every 1) 400 f0 nvars 0 0).getD 0)
+            | .error _ => "0"
+          s!"res=ok polls={polls} classes=[" ++ "|".intercalate (cl.map (fun c => ",".intercalate (c.map toString))) ++ "] types=[" ++
             ";".intercalate ((List.range nvars).map (fun v => s!"{v}:" ++ resolve f 6 v [])) ++ "]"
       -- C14 oracle on the implementation's answer
       let verdict :=
@@ -161,6 +186,9 @@ def handle (payload impl : String) : String × String :=
              | none => "FAIL C14-no-termination-within-budget")
            | .error _ => "FAIL C14-no-termination-within-budget")
         else if impl.startsWith "res=err" then "FAIL C14-error:" ++ impl
+        else if (model.startsWith "res=ok polls=") &&
+                ((impl.splitOn " classes=").headD "") ≠ ((model.splitOn " classes=").headD "") then
+          s!"FAIL C13-unify-poll-schedule:interval {every}: " ++ ((impl.splitOn " classes=").headD "") ++ " but one poll per interval of evidence-holding classes gives " ++ ((model.splitOn " classes=").headD "")
         else if (impl.splitOn "#multi").length > 1 then "FAIL C14-more-than-one-type"
         else if (impl.splitOn "#EQUAL").length > 1 then "FAIL C14-equality-left"
         else if (impl.splitOn "#nodata").length > 1 then "FAIL C14-no-type"
